@@ -186,15 +186,52 @@ def check_badname(u, ri, obj, spec, pi, ctx):
             raise Violation('%s: %s(name=%r) returned %r, ValueError expected' % (ctx, what, bad, r), signature='C08:badname')
 
 
-def check_multi(u, model, ri, hist, memo):
+def call_ep_multi(ep, reg, objs, specs, p, nm):
+    """The warm-up entry points at arity != 1 (lookup1 / adapter_hook / queryAdapter exist for single adapters only)."""
+    if ep in (1, 3):
+        return reg.lookup(specs, p, nm)
+    if ep == 2:
+        return reg.lookup(specs, p, nm, D)
+    if ep in (4, 5, 6):
+        return reg.queryMultiAdapter(objs, p, nm, D) if objs else reg.lookup(specs, p, nm, D)
+    if ep == 7:
+        return reg.lookupAll(specs, p)
+    if ep == 8:
+        return reg.subscriptions(specs, p)
+    return None
+
+
+def check_all_multi(u, model, ri, specs, p, ctx, memo):
+    reg = u.regs[ri]
+    la = reg.lookupAll(specs, p)
+    try:
+        dla = dict(la)
+        n_la = len(tuple(la))
+    except Exception:
+        raise Violation('%s: lookupAll returned %r, which is not a sequence of (name, value) pairs' % (ctx, la), signature='C08:lookupAll')
+    names = sorted(reg.names(specs, p))
+    if len(dla) != n_la or sorted(dla) != names:
+        raise Violation('%s: lookupAll %r and names %r disagree' % (ctx, la, names), signature='C08:names')
+    if set(dla) != M.lookupall_names(model, u, ri, list(specs), p):
+        raise Violation('%s: lookupAll lists names %r, applicable names are %r' % (
+            ctx, sorted(dla), sorted(M.lookupall_names(model, u, ri, list(specs), p))), signature='C08:lookupAll-names')
+    for n2, v in dla.items():
+        exp = expect_factory(model, u, ri, list(specs), p, n2, memo, reg.lookup(specs, p, n2))
+        if v is not exp:
+            raise Violation('%s: lookupAll maps %r to %r, lookup gives %r' % (ctx, n2, v, exp), signature='C08:lookupAll')
+
+
+def check_multi(u, model, ri, hist, memo, e1=0, e2=0):
     reg = u.regs[ri]
     for (i, j) in ((0, 1), (1, 0), (2, 1), (1, 1)):
         o1, o2 = u.objects[i], u.objects[j]
         specs = [u.providedBy(o1), u.providedBy(o2)]
         for pi in (0, 1):
             p = u.P[pi]
-            ctx = 'state [%s]; reg%d, key ((%s, %s), P%d)' % (hist, ri, u.objnames[i], u.objnames[j], pi)
-            r0 = reg.queryMultiAdapter((o1, o2), p, '', D)        # cold for this key
+            ctx = 'state [%s]; reg%d, key ((%s, %s), P%d); warm-up calls: %s, %s' % (hist, ri, u.objnames[i], u.objnames[j], pi, EPS[e1], EPS[e2])
+            for ep in (e1, e2):
+                call_ep_multi(ep, reg, (o1, o2), specs, p, '')
+            r0 = reg.queryMultiAdapter((o1, o2), p, '', D)        # cold for this key when there is no warm-up
             got = reg.lookup(specs, p, '')
             f = expect_factory(model, u, ri, specs, p, '', memo, got)
             if got is not f or reg.lookup(specs, p, '', D) is not (f if f is not None else D):
@@ -213,13 +250,18 @@ def check_multi(u, model, ri, hist, memo):
             want = [x for x in (s(o1, o2) for s in subs) if x is not None]
             if list(reg.subscribers((o1, o2), p)) != want:
                 raise Violation('%s: subscribers() differs from calling subscriptions()' % ctx, signature='C08:subscribers')
+            check_all_multi(u, model, ri, tuple(specs), p, ctx, memo)
     # arity 0 (utilities)
     for pi in (0, 1):
         p = u.P[pi]
+        for ep in (e1, e2):
+            call_ep_multi(ep, reg, (), (), p, '')
         got = reg.lookup((), p, '')
         f = expect_factory(model, u, ri, [], p, '', memo, got)
         if got is not f or reg.lookup((), p, '', D) is not (f if f is not None else D):
-            raise Violation('state [%s]; reg%d.lookup((), P%d) returned %r, expected %r' % (hist, ri, pi, got, f), signature='C08:lookup')
+            raise Violation('state [%s]; reg%d.lookup((), P%d) returned %r, expected %r (warm-up calls: %s, %s)' % (
+                hist, ri, pi, got, f, EPS[e1], EPS[e2]), signature='C08:lookup')
+        check_all_multi(u, model, ri, (), p, 'state [%s]; reg%d, arity 0, P%d; warm-up calls: %s, %s' % (hist, ri, pi, EPS[e1], EPS[e2]), memo)
 
 
 def run_state(flavour, ops, e1, e2):
@@ -238,7 +280,7 @@ def run_state(flavour, ops, e1, e2):
                     check_key(u, model, ri, e1, e2, label, obj, under, spec, pi, nm, hist, memo)
                 if e1 % 2 == 0:
                     check_badname(u, ri, obj, spec, pi, 'state [%s]; reg%d (%s, P%d) warm' % (hist, ri, label, pi))
-        check_multi(u, model, ri, hist, memo)
+        check_multi(u, model, ri, hist, memo, e1, e2)
     # non-string names are rejected on a cold registry too
     u2 = M.RegUniverse(flavour=flavour, nregs=2)
     m2 = M.Model(2)
